@@ -94,6 +94,16 @@ fn related<G: Grp>(rng: &mut StdRng, p: G, kp: Fr, kc: Fr, tag: &str, eig: &Opti
     }
 }
 
+fn gt_laws_outs(g: Gt, h: Gt, s: Fr, t: Fr) -> Obj {
+    outs! {"gh" => b(&(g * h).to_slice()), "hg" => b(&(h * g).to_slice()), "g1" => b(&(g * Gt::one()).to_slice()),
+           "ginv_g" => b(&(g.inverse().unwrap() * g).to_slice()),
+           "gs_gt" => b(&(g.pow(s) * g.pow(t)).to_slice()), "gspt" => b(&g.pow(s + t).to_slice()),
+           "gs_t" => b(&g.pow(s).pow(t).to_slice()), "gst" => b(&g.pow(s * t).to_slice()),
+           "gh_s" => b(&(g * h).pow(s).to_slice()), "gs_hs" => b(&(g.pow(s) * h.pow(s)).to_slice()),
+           "g0" => b(&g.pow(Fr::zero()).to_slice()), "g1p" => b(&g.pow(Fr::one()).to_slice()),
+           "grm1_g" => b(&(g.pow(-Fr::one()) * g).to_slice())}
+}
+
 pub fn run_gt(a: &Args, out: &mut Out) {
     let pool = load_pool(&a.pool, "Fr");
     let mut rng = rng_from(a.seed, "gt");
@@ -105,6 +115,33 @@ pub fn run_gt(a: &Args, out: &mut Out) {
         for v in pool.lo.iter() {
             let s = Fr::from_slice(v).unwrap();
             out.call("gt.pow", json!({"a": b(&sg), "k": b(&s.to_slice())}), || outs! {"out" => b(&g.pow(s).to_slice())});
+        }
+    }
+    if a.focus != "nosweep" {
+        // sweep: exponents whose CANONICAL limbs come from {0, 1, 2^63, 2^64-1, r_i, r_i +- 1} (quick: every fourth, rotating with the seed)
+        let g = pairing(G1::one(), G2::one());
+        let sg = g.to_slice();
+        for (i, v) in canon_patterns(&r_modulus()).iter().enumerate() {
+            if a.tier != "thorough" && (i as u64 + a.seed) % 4 != 0 { continue; }
+            let s = Fr::from_slice(v).unwrap();
+            out.call("gt.pow", json!({"a": b(&sg), "k": b(&s.to_slice())}), || outs! {"out" => b(&g.pow(s).to_slice())});
+        }
+    }
+    if a.focus != "nosweep" {
+        // exponent PAIRS whose product in Fr (the scalar arithmetic in front of pow) is a designated Montgomery product: (g^s)^t = g^(st)
+        let g = pairing(G1::one(), G2::one());
+        let sg = g.to_slice();
+        for (i, pr) in pool.hpairs.iter().chain(pool.qpairs.iter().step_by(9)).enumerate() {
+            if a.tier != "thorough" && (i as u64 + a.seed) % 3 != 0 { continue; }
+            let (s, t) = (Fr::from_slice(&pr.0).unwrap(), Fr::from_slice(&pr.1).unwrap());
+            out.call("gt.laws", json!({"g": b(&sg), "h": b(&sg), "s": b(&s.to_slice()), "t": b(&t.to_slice())}), || gt_laws_outs(g, g, s, t));
+        }
+        // exponents from the conversion family (their bytes -> Montgomery form conversion has prescribed quotient digits)
+        for (i, v) in pool.cvt.iter().enumerate() {
+            if a.tier != "thorough" && (i as u64 + a.seed) % 5 != 0 { continue; }
+            if let Some(s) = Fr::from_slice(v) {
+                out.call("gt.pow", json!({"a": b(&sg), "k": b(v)}), || outs! {"out" => b(&g.pow(s).to_slice())});
+            }
         }
     }
     let mut k = 0u64;
@@ -135,15 +172,7 @@ pub fn run_gt(a: &Args, out: &mut Out) {
             }
             2 => {
                 let (s, t) = (pick_scalar(&mut rng, &pool), pick_scalar(&mut rng, &pool));
-                out.call("gt.laws", json!({"g": b(&sg), "h": b(&sh), "s": b(&s.to_slice()), "t": b(&t.to_slice())}), || {
-                    outs! {"gh" => b(&(g * h).to_slice()), "hg" => b(&(h * g).to_slice()), "g1" => b(&(g * Gt::one()).to_slice()),
-                           "ginv_g" => b(&(g.inverse().unwrap() * g).to_slice()),
-                           "gs_gt" => b(&(g.pow(s) * g.pow(t)).to_slice()), "gspt" => b(&g.pow(s + t).to_slice()),
-                           "gs_t" => b(&g.pow(s).pow(t).to_slice()), "gst" => b(&g.pow(s * t).to_slice()),
-                           "gh_s" => b(&(g * h).pow(s).to_slice()), "gs_hs" => b(&(g.pow(s) * h.pow(s)).to_slice()),
-                           "g0" => b(&g.pow(Fr::zero()).to_slice()), "g1p" => b(&g.pow(Fr::one()).to_slice()),
-                           "grm1_g" => b(&(g.pow(-Fr::one()) * g).to_slice())}
-                });
+                out.call("gt.laws", json!({"g": b(&sg), "h": b(&sh), "s": b(&s.to_slice()), "t": b(&t.to_slice())}), || gt_laws_outs(g, h, s, t));
             }
             _ => {}
         }
@@ -314,6 +343,58 @@ pub fn run_pairing(a: &Args, out: &mut Out) {
                 let lz = if i % 2 == 0 { Fq2::new(l, Fq::zero()) } else { Fq2::new(Fq::zero(), l) };
                 pair_ev(out, ENTRY[(i / 3) % 3], pn, g2_scale(qn, lz), ka, kb, false);
             }
+        }
+    }
+    if focus == "laws" || focus == "agree" || focus == "vector" {
+        // arithmetic boundary families pushed through the pairing API:
+        //  (a) crafted G1 representatives whose normalisation performs a designated Montgomery product (unknown discrete logarithm:
+        //      the laws are checked as relations between the recorded values, e(P,Q) itself against the textbook pairing);
+        //  (b) representatives of known points whose 1/z has a designated Montgomery pattern (to_affine squares it); the same value as
+        //      the real part of a G2 z (Fq2::inverse squares both components).
+        let poolq = load_pool(&a.pool, "Fq");
+        let thorough = a.tier == "thorough";
+        let mut crafted = crafted_points(&poolq, a.seed, if thorough { 120 } else if focus == "laws" { 45 } else { 14 });
+        // ... and affine points one of whose coordinates is itself a pattern value (the Miller loop multiplies and scales by x_P, y_P)
+        crafted.extend(coord_points(&poolq, a.seed, if thorough { 120 } else if focus == "laws" { 20 } else { 10 }));
+        for (i, p) in crafted.into_iter().enumerate() {
+            let (kb, kc, kd) = (pick_scalar(&mut rng, &pool), pick_scalar(&mut rng, &pool), pick_scalar(&mut rng, &pool));
+            if kb.is_zero() { continue; }
+            let tq = pick_tag(&mut rng);
+            let q = g2_rep(&mut rng, G2::one() * kb, tq);
+            if focus == "laws" {
+                let (tp2, tq2) = (pick_tag(&mut rng), pick_tag(&mut rng));
+                let p2 = g1_rep(&mut rng, G1::one() * kc, if kc.is_zero() { "ZN" } else { tp2 });
+                let q2 = g2_rep(&mut rng, G2::one() * kd, if kd.is_zero() { "ZN" } else { tq2 });
+                let v = ENTRY[i % 3];
+                out.call("pair.laws", json!({"v": v, "p": p.jac(), "q": q.jac(), "p2": p2.jac(), "q2": q2.jac(), "nodl": true, "full": i % 4 == 0,
+                                             "ka": b(&[0u8; 32]), "kb": b(&kb.to_slice()), "kc": b(&kc.to_slice()), "kd": b(&kd.to_slice())}), || {
+                    let e = pair_by(v, p, q);
+                    outs! {"e_pq" => b(&e.to_slice()),
+                           "e_p2q" => b(&pair_by(v, p2, q).to_slice()), "e_pq2" => b(&pair_by(v, p, q2).to_slice()),
+                           "e_pp2_q" => b(&pair_by(v, p + p2, q).to_slice()), "e_p_qq2" => b(&pair_by(v, p, q + q2).to_slice()),
+                           "mul_p" => b(&(e * pair_by(v, p2, q)).to_slice()), "mul_q" => b(&(e * pair_by(v, p, q2)).to_slice()),
+                           "e_cp_dq" => b(&pair_by(v, p * kc, q * kd).to_slice()), "e_pow" => b(&e.pow(kc * kd).to_slice()),
+                           "erm1_e" => b(&(e.pow(-Fr::one()) * e).to_slice())}
+                });
+            } else if focus == "agree" {
+                for v in ENTRY {
+                    out.call("pair", json!({"v": v, "p": p.jac(), "q": q.jac(), "ka": b(&[0u8; 32]), "kb": b(&kb.to_slice()), "full": true, "nodl": true}), || {
+                        outs! {"out" => b(&pair_by(v, p, q).to_slice())}
+                    });
+                }
+            }
+        }
+        for (i, z) in inv_pattern_zs(&poolq, a.seed, if thorough { 1200 } else { 700 }).into_iter().enumerate() {
+            let (ka, kb) = (pick_scalar(&mut rng, &pool), pick_scalar(&mut rng, &pool));
+            if ka.is_zero() || kb.is_zero() { continue; }
+            let (mut pn, mut qn) = (G1::one() * ka, G2::one() * kb);
+            pn.normalize();
+            qn.normalize();
+            let (p, q) = if i % 3 == 2 {
+                let c1 = if i % 2 == 0 { Fq::zero() } else { rand_fq_nonzero(&mut rng) };
+                (pn, g2_scale(qn, Fq2::new(z.inverse().unwrap(), c1)))
+            } else { (g1_scale(pn, z), qn) };
+            pair_ev(out, ENTRY[i % 3], p, q, ka, kb, focus == "vector" && i % 3 == 0);
         }
     }
     let (eig1, eig2) = (endo_eigen::<G1>(), endo_eigen::<G2>());
